@@ -202,7 +202,7 @@ FIXED_LAWS = {
 # Guarded (C13a, C13b).  cfg: {'p':, 'g':}
 
 def gd_cmp_law(cfg, a, b, c):
-    G = init_guarded(cfg['p'], cfg['g'])
+    G = init_guarded(cfg['p'], cfg['g'], cfg.get('d'))
     geps = max(10 ** cfg['g'] // 2, 1)
     x, y = G(a, True), G(b, True)
     A, B = lz(a), lz(b)
